@@ -13,7 +13,7 @@ use serde::{Deserialize, Serialize};
 
 pub struct C18;
 
-pub const SEGS: &[&str] = &["a", "b", "sub", "d e", "ünï", ".hid", "f.txt", "x"];
+pub const SEGS: &[&str] = &["a", "b", "sub", "d e", "ünï", ".hid", "f.txt", "x", "ab", "A", "f.txt.bak", "su", "t"];
 pub const SIZES: &[usize] = &[0, 1, 1023, 1024, 1025, 4096, 70000, 7];
 /// sizes at the edges of hash blocks (SHA-256: 64, padding edge 55/56; SHA-512: 128, 111/112) and of plausible read buffers
 pub const EDGE_SIZES: &[usize] = &[55, 56, 63, 64, 65, 111, 112, 119, 120, 127, 128, 129, 4095, 4097, 8191, 8192, 8193, 16383, 16384, 16385, 32767, 32768, 32769, 49152, 65535, 65536, 65537, 131072, 1 << 20];
